@@ -18,6 +18,8 @@ def main():
     if "--checks" in sys.argv: checks = sys.argv[sys.argv.index("--checks") + 1].split(",")
     name = os.path.basename(mdir.rstrip("/"))
     if "--label" in sys.argv: name = sys.argv[sys.argv.index("--label") + 1]
+    # the searches / proofs / translators are measured WITHOUT the source pins (tools/pins.py), which would flag every seeded change
+    if "--with-pins" not in sys.argv: os.environ["VERIF_NO_PINS"] = "1"
     env = dict(os.environ, PYBES3_REPO=wt, PYTHONPATH=f"{wt}/src:/tmp/mutkit", NUMBA_CACHE_DIR=f"/tmp/nb_seed_{pid}_{name}", PYTHONDONTWRITEBYTECODE="1")
     suite = "/venv/bin/python -m pytest -q -p no:cacheprovider --timeout=900 tests -x -q --deselect tests/test_docs.py::test_mkdocs_build --deselect tests/test__cache_numba.py 2>&1 | tail -n 3"
     meta = {"property": pid, "name": name, "worktree_head": run(f"git -C {wt} rev-parse --short HEAD")[1].strip()}
